@@ -200,6 +200,35 @@ where
         if !ok {
             acc.violate(format!("try_sqrt:{}", tname), format!("try_sqrt on {} at {:e}: Some/None or value differs from the float's / from sqrt", tname, yr), case());
         }
+        // try_sqrt at the edge of its domain: tiny positive and tiny negative real parts
+        {
+            let tiny = if T::IS_F32 { [1e-8, 1e-30, 1e-45] } else { [1e-20, 1e-200, 5e-324] };
+            // (exactly zero is left out: sqrt is not differentiable there and the dual types answer None
+            // by design, whereas the float answers Some(0))
+            let e0 = match ci % 6 {
+                0 => tiny[0],
+                1 => tiny[1],
+                2 => tiny[2],
+                3 => -tiny[2],
+                4 => -tiny[1],
+                _ => -tiny[0],
+            };
+            let e0 = if T::IS_F32 { e0 as f32 as f64 } else { e0 };
+            let mut se = sy.clone();
+            se[0] = e0;
+            let ye: T = build_all(&shape, &se);
+            let yef: T::F = f_of::<T>(e0);
+            acc.observe(&format!("try_sqrt[edge]|{}|{:e}", tname, e0), true);
+            let (a, bf) = (ComplexField::try_sqrt(ye.clone()), ComplexField::try_sqrt(yef));
+            let ok = match (&a, &bf) {
+                (Some(a), Some(bf)) => p(a)[0].to_bits() == fv(*bf).to_bits() || (p(a)[0] == fv(*bf)),
+                (None, None) => true,
+                _ => false,
+            };
+            if !ok {
+                acc.violate(format!("try_sqrt-edge:{}", tname), format!("try_sqrt on {} at real part {:e}: {} but the float gives {}", tname, e0, if a.is_some() { "Some" } else { "None" }, if bf.is_some() { "Some" } else { "None" }), json!({"type": tname, "real_part": e0}));
+            }
+        }
         acc.observe(&format!("predicates|{}", tname), true);
         if ComplexField::is_finite(&y) != ComplexField::is_finite(&yf) || RealField::is_sign_positive(&y) != RealField::is_sign_positive(&yf) || RealField::is_sign_negative(&y) != RealField::is_sign_negative(&yf) {
             acc.violate(format!("predicates:{}", tname), format!("is_finite / is_sign_* on {} at {:e} differ from the float's", tname, yr), case());
